@@ -623,13 +623,16 @@ pub fn generate(prop: &str, thorough: bool, rng: &mut Rng) -> Case {
             cfg.insert("reopen".into(), rng.below(2) as i64);
             cfg.insert("mem_cap".into(), 2);
             cfg.insert("tomb".into(), 0);
-            let bp = *rng.pick(&[8i64, 8, 16]);
+            // a sixth of the runs: blocks of 256-384 KiB, so that values exceed the internal buffers of the stream
+            // decoders (a decoder then hands the value back in several short reads)
+            let big = rng.chance(1, 6);
+            let bp = if big { *rng.pick(&[64i64, 96]) } else { *rng.pick(&[8i64, 8, 16]) };
             cfg.insert("block_pages".into(), bp);
-            let ample = rng.chance(2, 3);
+            let ample = big || rng.chance(2, 3);
             cfg.insert("ample".into(), ample as i64);
-            cfg.insert("blocks".into(), if ample { 40 } else { 4 + rng.below(4) as i64 });
+            cfg.insert("blocks".into(), if big { 12 } else if ample { 40 } else { 4 + rng.below(4) as i64 });
             let flushers = cfg["flushers"];
-            let per = match rng.below(3) {
+            let per = match if big { 0 } else { rng.below(3) } {
                 0 => bp * 3,
                 1 => bp,
                 _ => 2 + rng.below(bp as usize) as i64,
